@@ -427,40 +427,50 @@ func (c *Client) GetBlock(point pcommon.Point) (ledger.Block, error) {
 		c.releaseBusy(token)
 		return nil, protocol.ErrProtocolShuttingDown
 	}
-	// Wait for block
+	// Receive blocks until the server ends the batch. Draining the whole batch
+	// keeps handleBlock/handleBatchDone from blocking on a channel that nobody
+	// reads when the server sends no block or more than one block.
 	var block ledger.Block
-	select {
-	case b, ok := <-c.blockChan:
-		if !ok {
+	blockCount := 0
+	for {
+		select {
+		case b, ok := <-c.blockChan:
+			if !ok {
+				c.releaseBusy(token)
+				return nil, protocol.ErrProtocolShuttingDown
+			}
+			blockCount++
+			if blockCount == 1 {
+				block = b
+			}
+		case _, ok := <-c.batchDoneChan:
+			// handleBatchDone signals batchDoneChan in GetBlock mode instead of
+			// unlocking, so the protocol is back in the Idle state here.
+			c.releaseBusy(token)
+			if !ok {
+				return nil, protocol.ErrProtocolShuttingDown
+			}
+			if blockCount != 1 || block == nil {
+				return nil, fmt.Errorf(
+					"%s: expected exactly one block for point %x, received %d",
+					ProtocolName,
+					point.Hash,
+					blockCount,
+				)
+			}
+			if !bytes.Equal(block.Hash().Bytes(), point.Hash) {
+				return nil, fmt.Errorf(
+					"%s: received block %s does not match requested point %x",
+					ProtocolName,
+					block.Hash().String(),
+					point.Hash,
+				)
+			}
+			return block, nil
+		case <-protocolDone:
 			c.releaseBusy(token)
 			return nil, protocol.ErrProtocolShuttingDown
 		}
-		block = b
-	case <-protocolDone:
-		c.releaseBusy(token)
-		return nil, protocol.ErrProtocolShuttingDown
-	}
-	// Wait for BatchDone before returning to ensure the protocol state machine
-	// completes the batch properly (transitions back to Idle state).
-	// handleBatchDone signals batchDoneChan in GetBlock mode instead of unlocking.
-	select {
-	case <-c.batchDoneChan:
-		// BatchDone was processed successfully
-		c.releaseBusy(token)
-		// The server chooses what it sends: only hand back the block that was
-		// asked for
-		if block == nil || !bytes.Equal(block.Hash().Bytes(), point.Hash) {
-			return nil, fmt.Errorf(
-				"%s: received block does not match requested point %x",
-				ProtocolName,
-				point.Hash,
-			)
-		}
-		return block, nil
-	case <-protocolDone:
-		// Shutdown while waiting for BatchDone
-		c.releaseBusy(token)
-		return nil, protocol.ErrProtocolShuttingDown
 	}
 }
 
